@@ -15,6 +15,10 @@ type Payload struct {
 	IDs    []string
 	Tokens []string
 	Prios  []float64
+	// PrioInt: the same occurrences, exactly, where the JSON number is an integer that fits
+	// in 64 bits (a priority above 2^53 does not survive a float64); PrioIsInt says which
+	PrioInt   []int64
+	PrioIsInt []bool
 }
 
 func DecodePayload(val []byte) Payload {
@@ -56,6 +60,10 @@ func DecodePayload(val []byte) Payload {
 			var f float64
 			if json.Unmarshal(raw, &f) == nil {
 				p.Prios = append(p.Prios, f)
+				var n int64
+				exact := json.Unmarshal(raw, &n) == nil
+				p.PrioInt = append(p.PrioInt, n)
+				p.PrioIsInt = append(p.PrioIsInt, exact)
 			}
 		}
 	}
@@ -105,6 +113,9 @@ func DecodeIDToken(val []byte) (id, token string, prio int) {
 	}
 	if n := len(p.Prios); n > 0 {
 		prio = int(p.Prios[n-1])
+		if p.PrioIsInt[n-1] {
+			prio = int(p.PrioInt[n-1])
+		}
 	}
 	return
 }
